@@ -58,6 +58,8 @@ def showDump (look : Name → Option String) (lookExt : Name → Nat → Option 
 structure SymState where
   defs : List FileDef := []
   t : Table := []
+  /-- a lenient handler shared by all `import <id> shared` ops of the case -/
+  shared : H := { mode := .lenient }
 
 def symbolsStep (st : SymState) (line : String) : SymState × String :=
   match words line with
@@ -67,6 +69,11 @@ def symbolsStep (st : SymState) (line : String) : SymState × String :=
   | ["import", id, mode] => match id.toNat? with
     | some id => match st.defs.find? (·.id == id) with
       | some f =>
+        if mode == "shared" then
+          let (t', h, r) := importFile st.defs (st.defs.length + 1) st.t st.shared f
+          let rs := " ".intercalate ((h.reported.drop st.shared.reported.length).map showRep)
+          ({ st with t := t', shared := h }, s!"{if r == .ok then "ok" else "err"} reported=[{rs}]")
+        else
         let m := if mode == "lenient" then Mode.lenient else Mode.strict
         let (t', h, r) := importFile st.defs (st.defs.length + 1) st.t { mode := m } f
         let rs := " ".intercalate (h.reported.map showRep)
@@ -88,6 +95,8 @@ structure SymSpec where
   diverged : Bool := false
   /-- the most recent failed import reported an extension-number collision -/
   lastFailExt : Bool := false
+  /-- the shared lenient handler has already seen an error -/
+  sharedFailed : Bool := false
 
 def goodDefs (s : SymSpec) : List FileDef := s.defs.filter (fun d => s.good.contains d.id)
 
@@ -127,8 +136,22 @@ def symbolsSpec (s : SymSpec) (line ans : String) : SymSpec × String :=
   | "def" :: rest => match parseDef rest with
     | some d => ({ s with defs := s.defs ++ [d] }, "skip")
     | none => (s, "skip")
-  | ["import", id, _] => match id.toNat? >>= fun id => s.defs.find? (·.id == id) with
+  | ["import", id, mode] => match id.toNat? >>= fun id => s.defs.find? (·.id == id) with
     | some f =>
+      if mode == "shared" && s.sharedFailed && !s.good.contains f.id && f.deps.all s.good.contains then
+        -- a handler that already carries an error: the implementation may refuse any further import,
+        -- but a COLLIDING file must still be reported and must not be committed
+        let reportedNothing := ans.endsWith "reported=[]"
+        if collides s f then
+          if reportedNothing then ({ s with diverged := true }, s!"fails collision-not-reported file={f.id}")
+          else if ans.startsWith "ok" then
+            ({ s with diverged := true }, s!"fails colliding-import-returned-nil file={f.id}")
+          else ({ s with lastFailExt := (ans.splitOn "ext:").length > 1 }, "holds")
+        else if reportedNothing && ans.startsWith "ok" then ({ s with good := s.good ++ [f.id] }, "holds")
+        else if reportedNothing then (s, "skip")
+        else ({ s with diverged := true }, s!"fails spurious-collision file={f.id} {ans}")
+      else
+      let s := if mode == "shared" && !(ans.endsWith "reported=[]") then { s with sharedFailed := true } else s
       if s.good.contains f.id then
         (s, if ans.startsWith "ok reported=[]" then "holds" else s!"fails re-import of an imported file reported {ans}")
       else if !(f.deps.all s.good.contains) then ({ s with diverged := true }, "skip")
